@@ -21,3 +21,11 @@ def c10_edge_face_only(rec):
     sup = set(case.get('supplied') or [])
     return ('edge_face' in sup and 'edge_node' not in sup and 'face_edge' not in sup
             and rec['what'].startswith('tables disagree'))
+
+
+def c16_marshal_object_state(rec):
+    """every geometry variable (name, dtype, shape, values) and every attribute is equal - checked on the canonical
+    rendering before this report is made - yet the hashed bytes differ: marshal.dumps(attrs, 4) encodes reference
+    counts (FLAG_REF) and string interning of the attribute objects"""
+    case = rec.get('case') or {}
+    return case.get('kind') == 'object_state'
